@@ -443,9 +443,39 @@ type spyCall struct {
 // Whatever GetTokenResponse returns later must be one of them: session data never changes except through the store's
 // write methods (no aliasing of the caller's or the store's structures, no write that bypasses validation).
 type tokLedger struct {
-	mu      sync.Mutex
-	written map[string][]oidc.TokenResponse
-	bad     []map[string]any
+	mu          sync.Mutex
+	written     map[string][]oidc.TokenResponse
+	bad         []map[string]any
+	authWritten map[string][]oidc.AuthorizationState // the same for login states (SetAuthorizationState / GetAuthorizationState)
+	badAuth     []map[string]any
+}
+
+func (l *tokLedger) wroteAuth(id string, a oidc.AuthorizationState) {
+	l.mu.Lock()
+	defer l.mu.Unlock()
+	if l.authWritten == nil {
+		l.authWritten = map[string][]oidc.AuthorizationState{}
+	}
+	l.authWritten[id] = append(l.authWritten[id], a)
+}
+
+func (l *tokLedger) readAuth(id string, a oidc.AuthorizationState) {
+	l.mu.Lock()
+	defer l.mu.Unlock()
+	for _, w := range l.authWritten[id] {
+		if w == a {
+			return
+		}
+	}
+	l.badAuth = append(l.badAuth, map[string]any{"sid": id, "returned": a, "ever_written_under_this_id": len(l.authWritten[id])})
+}
+
+func (l *tokLedger) takeBadAuth() []map[string]any {
+	l.mu.Lock()
+	defer l.mu.Unlock()
+	b := l.badAuth
+	l.badAuth = nil
+	return b
 }
 
 func sameTokens(a, b oidc.TokenResponse) bool {
@@ -562,6 +592,9 @@ func (s *spyStore) SetAuthorizationState(ctx context.Context, id string, a *oidc
 	cp := *a
 	var err error
 	if f != 1 {
+		if s.ledger != nil {
+			s.ledger.wroteAuth(id, cp)
+		}
 		err = s.real.SetAuthorizationState(ctx, id, a)
 	}
 	if f != 0 {
@@ -577,10 +610,18 @@ func (s *spyStore) GetAuthorizationState(ctx context.Context, id string) (*oidc.
 	if f != 1 {
 		a, err = s.real.GetAuthorizationState(ctx, id)
 	}
+	if a != nil && s.ledger != nil {
+		s.ledger.readAuth(id, *a)
+	}
 	if f != 0 {
 		a, err = nil, errInjected
 	}
-	s.record(spyCall{Op: "getauth", ID: id, GotAuth: a, Err: err != nil, Fault: f})
+	var snap *oidc.AuthorizationState
+	if a != nil {
+		cp := *a
+		snap = &cp
+	}
+	s.record(spyCall{Op: "getauth", ID: id, GotAuth: snap, Err: err != nil, Fault: f})
 	return a, err
 }
 func (s *spyStore) ClearAuthorizationState(ctx context.Context, id string) error {
